@@ -7,7 +7,7 @@ META = {
              'parent, absolute paths to outside canaries, nested paths, unicode) x operations {exists, file_handle in '
              'r/w/a/x/rb/wb/r+/w+ (then read or write+close), delete} on a freshly built sandbox (storage dir with key '
              'dirs, plain file, symlinks; key dir containing file/dir symlinks pointing outside (existing and dangling targets) and a sub-directory; '
-             'outside canary files and dirs); a quarter of the cases are multi-step histories on ONE sandbox / storage path / process (operations on a key, then the harness turns that key into a symlink to an outside directory, to the parent, to a sibling, into a plain file, or into a directory holding a file-symlink to outside, then more operations with the same or a new LocalStorage object). Monitors: full file-system snapshot (type, bytes, link target of every '
+             'outside canary files and dirs; in 12 % of the single operations the storage is constructed from a RELATIVE path (pathlib.Path or str) and the working directory then changes to a place holding a same-named decoy directory); a quarter of the cases are multi-step histories on ONE sandbox / storage path / process (operations on a key, then the harness turns that key into a symlink to an outside directory, to the parent, to a sibling, into a plain file, or into a directory holding a file-symlink to outside, then more operations with the same or a new LocalStorage object). Monitors: full file-system snapshot (type, bytes, link target of every '
              'path under the sandbox) before/after each operation and a sys.addaudithook record of every open / '
              'mkdir / remove / rmdir / rename / rmtree / scandir / listdir under the sandbox during the operation; the '
              'thorough tier re-runs a sample under strace -f -e trace=%file and parses the syscall paths. Oracle: the '
@@ -121,6 +121,10 @@ def gen_case(rng):
         return ''.join(rng.choice(atoms) for _ in range(n))
     op = rng.choice(['exists', 'file_handle', 'file_handle', 'file_handle', 'delete'])
     case = {'op': op, 'key': cat(KEY_ATOMS, ['k1', 'k2', 'new', 'linksib'])}
+    if rng.random() < 0.12:
+        case['relative'] = rng.choice(['path', 'str'])
+        if rng.random() < 0.7:
+            case['key'] = rng.choice(['k1', 'k2', 'new'])
     if op == 'file_handle':
         case['filename'] = cat(FILE_ATOMS, ['metadata.json', 'new.txt', 'data.pickle', 'flinkin', 'fdangle_out', 'fdangle_in'])
         case['mode'] = rng.choice(MODES)
@@ -183,8 +187,10 @@ def do_step(storage, step, st, out, base, marks=False):
             bad.append(('exists-modified', f'{step}: exists() changed {p}'))
     real_base = os.path.realpath(base)
     for ev, p in events:
+        if not os.path.isabs(p):
+            continue      # dir_fd-relative operation (shutil.rmtree): not resolvable here; the snapshot diff judges it
         try:
-            ap = os.path.realpath(p if os.path.isabs(p) else os.path.join(os.getcwd(), p))
+            ap = os.path.realpath(p)
         except (OSError, ValueError):
             continue
         if not (ap == real_base or ap.startswith(real_base + os.sep)):
@@ -248,16 +254,27 @@ def run_case(case, base=None, marks=False):
     if not _REC['installed']:
         sys.addaudithook(_hook)
         _REC['installed'] = True
+    cwd0 = os.getcwd()
     try:
         st, out = build_sandbox(base)
-        storage = LocalStorage(st, with_gitignore=False)
+        if case.get('relative'):
+            # the storage is given as a RELATIVE pathlib.Path; afterwards the program changes its working directory
+            # to a place that has a same-named directory with the same keys (decoy, must stay untouched)
+            from pathlib import Path
+            decoy = os.path.join(out, 'cwd2')
+            shutil.copytree(st, os.path.join(decoy, 'storage'), symlinks=True)
+            os.chdir(base)
+            storage = LocalStorage(Path('storage') if case['relative'] == 'path' else 'storage', with_gitignore=False)
+            os.chdir(decoy)
+        else:
+            storage = LocalStorage(st, with_gitignore=False)
         steps = case.get('steps') or [case]
         bad, info = [], {'raised': None, 'changed': [], 'events': 0, 'result': None, 'steps': 0}
         for step in steps:
             if 'mutate' in step:
                 mutate_layout(step['mutate'], st, out, step['key'])
                 continue
-            if step.get('new_storage_object'):
+            if step.get('new_storage_object') and not case.get('relative'):
                 storage = LocalStorage(st, with_gitignore=False)
             step = dict(step, _allowed=allowed_child(st, subst(step['key'], st, out)))
             b, i = do_step(storage, step, st, out, base, marks)
@@ -271,6 +288,7 @@ def run_case(case, base=None, marks=False):
         return bad, info
     finally:
         _REC['armed'] = False
+        os.chdir(cwd0)
         if own:
             shutil.rmtree(base, ignore_errors=True)
 
